@@ -33,6 +33,8 @@ def _gen_plan(seed, tier):
                                   {'t': r3.choice(['CollapseAt', 'CollapseAt', 'CollapseAs']),
                                    'kw': {'tolerance': r3.choice([1e-3, 1e-2, 0.1, 1.0]), 'generations': r3.choice([1, 2, 3, 5])}}]}
         ops = [o for o in plan['ops'] if not (o['op'] == 'set' and o['what'] in ('termination', 'constraint'))]
+        if any(o['op'] == 'set' and o['what'] == 'bounds' and o.get('arg') for o in ops):
+            term['of'][1]['t'] = 'CollapseAt'      # (a tie across unequal box sides is not box-compatible; a fix at the current value is)
         first = next((i for i, o in enumerate(ops) if o['op'] in ('step', 'solve')), len(ops))
         ops.insert(first, {'op': 'set', 'what': 'termination', 'arg': term})
         if not any(o['op'] == 'set' and o['what'] == 'limits' and o['arg'][0] is not None for o in ops[:first]):
